@@ -102,7 +102,8 @@ func withRandomDistribution(
 		}
 
 		var currentRate int
-		if remainingSteps == 1 || remainingRate == 0 {
+		if remainingSteps == 1 || remainingRate <= 0 {
+			// (a negative rate, e.g. from a negative stage target, must not reach randFn: rand.Intn panics)
 			currentRate = remainingRate
 		} else {
 			currentRate = randFn(remainingRate)
